@@ -562,7 +562,7 @@ class Run(ExtraOps):
         cols = op["cols"]
         rows = op["rows"]
         special = op.get("special")
-        if special == "doomed":
+        if special in ("doomed", "nopayload"):
             rows = []
         elif special == "identity":
             cols, rows = [], [[]]
